@@ -57,10 +57,13 @@ def stamp (kind : Kind) (s : K) : Cpt K → Stamp K
                (match kind with
                 | .dc => []
                 | .time => []
-                | _ => coup.map (fun p => (br m, br p.1, -(s * p.2)))),          -- K._stamp: D[m1,m2] += −ZM
-        rhs := match kind, i0 with
-               | .ivp, some i0 => [(br m, -(l * i0))]                            -- Voc = −L·i0
-               | _, _ => [] }
+                | _ => coup.map (fun p => (br m, br p.1, -(s * p.2.1)))),        -- K._stamp: D[m1,m2] += −ZM
+        rhs := (match kind, i0 with
+                | .ivp, some i0 => [(br m, -(l * i0))]                           -- Voc = −L·i0
+                | _, _ => []) ++
+               (match kind with
+                | .ivp => coup.map (fun p => (br m, -(icFlux p.2.1 p.2.2)))  -- K._stamp: Es[m1] += −M·i0'
+                | _ => []) }
   | .V n1 n2 m v => { lhs := branchPattern n1 n2 m, rhs := [(br m, v)] }
   | .AM n1 n2 m => { lhs := branchPattern n1 n2 m }
   | .I n1 n2 i => { rhs := [(node n1, i), (node n2, -i)] }
